@@ -2,6 +2,9 @@
 //! bed-utils code on it, prints one canonical result line per case.
 mod sexp;
 mod lap;
+mod util;
+mod maps;
+mod algebra;
 use sexp::*;
 use std::io::{BufRead, Write};
 
@@ -9,6 +12,15 @@ fn run_case(x: &Sx) -> Sx {
     let l = x.list();
     match l[0].atom() {
         "lap" => lap::run(&l[1..]),
+        "gmap" => maps::run_gmap(&l[1..]),
+        "iset" => maps::run_iset(&l[1..]),
+        "imap" => maps::run_imap(&l[1..]),
+        "cov" => maps::run_cov(&l[1..]),
+        "bcov" => maps::run_bcov(&l[1..]),
+        "alg" => algebra::run_alg(&l[1..]),
+        "split" => algebra::run_split(&l[1..]),
+        "merge" => algebra::run_merge(&l[1..]),
+        "bg" => algebra::run_bg(&l[1..]),
         k => Sx::L(vec![a("glue-error"), a(format!("unknown-kind-{}", k))]),
     }
 }
